@@ -6,7 +6,7 @@ from .. import postrun as P
 from . import c18
 
 LEVEL = "proof"
-N = {"quick": 6000, "thorough": 200000}
+N = {"quick": 16000, "thorough": 200000}
 
 
 def uses_alternatives(s):
